@@ -109,6 +109,7 @@ func (c *Ctx) rulesR3resolver() {
 	c.rule("C02.idx", "DefaultRelationsResolver.TargetStates stores its index parameter into rr.Index unconditionally before using it: VerifyStates reorders the machine's state names without telling the resolver, and Mutation.Called is in the machine's index space")
 	names := []string{"TargetStates", "parseAdd", "parseRequire", "getMissingRequires", "stateBlockedBy", "sortRequire"}
 	n := 0
+	seenNL := map[*ssa.Function]bool{}
 	for _, nm := range names {
 		f := c.fnOpt(pm + ":DefaultRelationsResolver." + nm)
 		if f == nil {
@@ -122,8 +123,14 @@ func (c *Ctx) rulesR3resolver() {
 				coll(a)
 			}
 		}
-		coll(f)
+		for _, hf := range c.hostedFns(f) {
+			coll(hf)
+		}
 		for _, g := range fs {
+			if seenNL[g] {
+				continue
+			}
+			seenNL[g] = true
 			// appends feeding a returned value
 			var effects []*ssa.Call
 			for _, b := range g.Blocks {
